@@ -265,6 +265,18 @@ structure BQResult (α : Type) where
 
 def zeroInfo : MonoInfo α := ⟨false, false, zero, zero, zero⟩
 
+/-- `BucketQuantile` after `coalesceBuckets`: fix-up, special cases, rank search, interpolation. -/
+def bqTail (almost : α → α → Bool) (q : α) (cs : List (Bucket α)) : BQResult α :=
+  let r := ensureMonotonic almost cs
+  let bs := r.1
+  if bs.length < 2 then ⟨nan, r.2⟩
+  else
+    let observations := cntAt bs (bs.length - 1)
+    if beq observations zero then ⟨nan, r.2⟩
+    else
+      let rank := mul q observations
+      ⟨bqInterp bs rank (bqSelect bs rank), r.2⟩
+
 /-- `BucketQuantile(q, buckets)`, parameterised by the tolerance predicate. -/
 def bucketQuantileWith (almost : α → α → Bool) (q : α) (buckets : List (Bucket α)) : Except Err (BQResult α) :=
   if isNaN q then .ok ⟨nan, zeroInfo⟩
@@ -276,15 +288,7 @@ def bucketQuantileWith (almost : α → α → Bool) (q : α) (buckets : List (B
     | first :: rest =>
       let sorted := first :: rest
       if !beq (ubAt sorted (sorted.length - 1)) pinf then .ok ⟨nan, zeroInfo⟩
-      else
-        let (bs, info) := ensureMonotonic almost (coalesce first rest)
-        if bs.length < 2 then .ok ⟨nan, info⟩
-        else
-          let observations := cntAt bs (bs.length - 1)
-          if beq observations zero then .ok ⟨nan, info⟩
-          else
-            let rank := mul q observations
-            .ok ⟨bqInterp bs rank (bqSelect bs rank), info⟩
+      else .ok (bqTail almost q (coalesce first rest))
 
 def bucketQuantile (q : α) (buckets : List (Bucket α)) : Except Err (BQResult α) :=
   bucketQuantileWith (fun p c => almostEqual p c tol) q buckets
